@@ -439,4 +439,54 @@ class _Builder:
 
 
 def build(fn):
-    return _Builder(fn).build()
+    g = _Builder(fn).build()
+    if fn.raw.get('inlined'):
+        _thread_constant_flags(g)
+    return g
+
+
+def _thread_constant_flags(g):
+    """Jump threading for the result flags that inlining a helper introduces (cjsa/specialize.py):
+
+        flag = 0; goto end;  ...  end: ;  if (flag) ...
+
+    A node that assigns a constant to a local and is followed, through nothing but jumps and labels, by a branch on that local
+    continues on the edge the constant selects.  The program is unchanged; the paths `flag = 0` / `flag is true` that the
+    flow-insensitive rules would otherwise follow do not exist."""
+    from .facts import strip_casts as sc, const_val as cv
+    for a in g.nodes:
+        if a.kind != 'stmt' or a.expr is None:
+            continue
+        e = a.expr
+        if e.get('k') != 'bin' or e.get('op') != '=':
+            continue
+        l = sc(e['l'])
+        c = cv(e['r'])
+        if l.get('k') != 'ref' or l.get('dk') != 'local' or c is None or len(g.succ[a.id]) != 1:
+            continue
+        cur = g.succ[a.id][0][0]
+        hops = 0
+        while g.nodes[cur].kind == 'nop' and len(g.succ[cur]) == 1 and hops < 50:
+            cur = g.succ[cur][0][0]
+            hops += 1
+        b = g.nodes[cur]
+        if b.kind != 'branch' or b.expr is None:
+            continue
+        be = sc(b.expr)
+        want_true = None
+        if be.get('k') == 'ref' and be.get('d') == l.get('d'):
+            want_true = (c != 0)
+        elif be.get('k') == 'bin' and be.get('op') in ('==', '!='):
+            x, y = sc(be['l']), sc(be['r'])
+            k0 = cv(be['r']) if x.get('k') == 'ref' and x.get('d') == l.get('d') else (cv(be['l']) if y.get('k') == 'ref' and y.get('d') == l.get('d') else None)
+            if k0 is not None:
+                want_true = ((c == k0) == (be['op'] == '=='))
+        if want_true is None:
+            continue
+        targets = [(y, lab) for (y, lab) in g.succ[b.id] if lab is not None and lab[0] == ('T' if want_true else 'F')]
+        if len(targets) != 1:
+            continue
+        old = g.succ[a.id][0]
+        g.succ[a.id] = [(targets[0][0], None)]
+        g.pred[old[0]] = [(p_, lab) for (p_, lab) in g.pred[old[0]] if p_ != a.id]
+        g.pred[targets[0][0]].append((a.id, None))
